@@ -26,6 +26,9 @@ pub struct Shared {
     pub calls: usize,
     /// pause after logging an invocation (C13 thread mode: keeps the log of endless programs short)
     pub sleep_us: u64,
+    /// C13 thread mode: from this many invocations on a command waits (inside its run) until the
+    /// other thread has raised the flag, so that the log stays bounded whatever the scheduler does
+    pub wait_cap: usize,
 }
 
 #[derive(Clone)]
@@ -137,6 +140,19 @@ impl Command for Scripted {
         let pause = self.shared.borrow().sleep_us;
         if pause > 0 {
             std::thread::sleep(std::time::Duration::from_micros(pause));
+        }
+        let (cap, calls) = {
+            let sh = self.shared.borrow();
+            (sh.wait_cap, sh.calls)
+        };
+        if cap > 0 && calls >= cap {
+            let t0 = std::time::Instant::now();
+            while !context.env.halt.load(Ordering::SeqCst) {
+                std::thread::sleep(std::time::Duration::from_micros(100));
+                if t0.elapsed().as_secs() > 30 {
+                    panic!("watchdog");
+                }
+            }
         }
         let mut pos = self.pos.borrow_mut();
         if *pos >= self.results.len() {
